@@ -21,6 +21,13 @@ OUTDIR = os.environ.get("CLV_OUT_DIR", ROOT)
 JAVA_TRACE = "-Xss1g -Dtlc2.tool.queue.IStateQueue=StateDeque"
 
 
+CRASH_SIGNALS = {-4: "SIGILL", -6: "SIGABRT", -7: "SIGBUS", -11: "SIGSEGV"}
+
+
+class CodeCrash(Exception):
+    """the code under test killed the harness process; the violation is already recorded"""
+
+
 class ToolError(Exception):
     pass
 
@@ -149,10 +156,36 @@ class Ctx:
             pass
 
     # ---------------------------------------------------------------- harness
+    def _crashed(self, binary, args, rc, stderr, timeout):
+        """The harness process was killed by a signal while it ran the code under test (std's
+        unsafe-precondition checks abort, a wild write trips the allocator, ...).  That is an outcome no
+        specification action allows: re-run in breadcrumb mode to find the case, report it as a
+        violation of the property being checked.  Not reproduced -> tool error (never a false alarm)."""
+        crumb = self.path("breadcrumb.%d" % len(self.steps))
+        r2 = subprocess.run([binary] + [str(a) for a in args], stdout=subprocess.PIPE, stderr=subprocess.PIPE, text=True,
+                            timeout=timeout * 3, env=dict(os.environ, CLV_BREADCRUMB=crumb))
+        if r2.returncode != rc:
+            raise ToolError("harness %s died with %s once and exit %d on the re-run: %s" % (
+                " ".join(map(str, args)), CRASH_SIGNALS[rc], r2.returncode, stderr[-1000:]))
+        case = {"signal": CRASH_SIGNALS[rc], "harness_args": [str(a) for a in args if not str(a).startswith(self.work)],
+                "stderr": r2.stderr[-1500:]}
+        if os.path.exists(crumb):
+            case["vector_being_evaluated"] = open(crumb, errors="replace").read()[:20000]
+        a = [str(x) for x in args]
+        if "--out" in a and a[0] == "rec" and os.path.exists(a[a.index("--out") + 1]):
+            lines = open(a[a.index("--out") + 1], errors="replace").read().splitlines()
+            case["events_recorded_before_the_call_that_died"] = len(lines)
+            case["last_events"] = [l[:3000] for l in lines[-12:]]
+        self.violations.append({"prop": self.pid, "sig": "", "kind": "crash", "component": " ".join(a[:2]), "case": case,
+                                "what": "the process was killed by %s inside the code under test" % CRASH_SIGNALS[rc]})
+        raise CodeCrash("%s in harness %s" % (CRASH_SIGNALS[rc], " ".join(a[:2])))
+
     def harness(self, binary, *args, timeout=1800):
         t = time.time()
         r = subprocess.run([binary] + [str(a) for a in args], stdout=subprocess.PIPE, stderr=subprocess.PIPE,
                            text=True, timeout=timeout)
+        if r.returncode in CRASH_SIGNALS:
+            self._crashed(binary, args, r.returncode, r.stderr, timeout)
         if r.returncode != 0:
             raise ToolError("harness %s failed (%d): %s" % (" ".join(map(str, args)), r.returncode, r.stderr[-2000:]))
         out = r.stdout.strip().splitlines()
@@ -211,6 +244,28 @@ class Ctx:
         res = {"rc": r.returncode, "out": out, "s": round(time.time() - t, 1),
                "generated": int(m.group(1)) if m else 0, "distinct": int(m.group(2)) if m else 0}
         return res
+
+    def apalache(self, module, init, inv, length, expect_violation=False, timeout=1800):
+        """Symbolic check with Apalache (bounded data, unbounded history via an inductive invariant).
+        expect_violation=True is a vacuity guard: the claim MUST be refuted.  Any other outcome than the
+        expected one is a defect of the specification (exit 2), not of the code."""
+        od = self.path("apalache-%d" % self._n)
+        self._n += 1
+        cmd = ["timeout", str(timeout), "apalache-mc", "check", "--out-dir=" + od, "--init=" + init, "--inv=" + inv,
+               "--length=%d" % length, os.path.join(SPEC, module + ".tla")]
+        t = time.time()
+        r = subprocess.run(cmd, cwd=self.work, stdout=subprocess.PIPE, stderr=subprocess.STDOUT, text=True)
+        shutil.rmtree(od, ignore_errors=True)
+        if r.returncode == 124:
+            raise ToolError("Apalache timed out after %ss on %s %s" % (timeout, module, inv))
+        m = re.search(r"The outcome is: (\w+)", r.stdout)
+        outcome = m.group(1) if m else "none"
+        want = "Error" if expect_violation else "NoError"
+        if outcome != want:
+            raise ToolError("Apalache %s --init=%s --inv=%s --length=%d: outcome %s, expected %s\n%s" % (
+                module, init, inv, length, outcome, want, r.stdout[-1500:]))
+        self.note("apalache " + module, init=init, inv=inv, length=length, outcome=outcome, s=round(time.time() - t, 1))
+        self.extra.setdefault("apalache", []).append({"module": module, "init": init, "inv": inv, "length": length, "outcome": outcome})
 
     def model_check(self, module, cfg=None, env=None, workers=8, timeout=900, expect_states=None, extra=(), allow_never=(), coverage=False):
         """Check the bounded model.  A failure here is a defect of the specification (exit 2),
